@@ -71,15 +71,15 @@ func (l *LineFilterPlanner) Process(ctx *shared.PlannerContext) (sql.ISelect, er
 }
 
 func (l *LineFilterPlanner) doLike(likeOp string) (sql.SQLCondition, error) {
-	enqVal, err := l.enquoteStr(l.Val)
+	// escape the LIKE metacharacters (and the LIKE escape character itself) in the text,
+	// then quote the whole pattern as a SQL string literal
+	likeVal := strings.NewReplacer(`\`, `\\`, "%", `\%`, "_", `\_`).Replace(l.Val)
+	enqVal, err := l.enquoteStr("%" + likeVal + "%")
 	if err != nil {
 		return nil, err
 	}
-	enqVal = enqVal[1 : len(enqVal)-1]
-	enqVal = strings.Replace(enqVal, "%", "\\%", -1)
-	enqVal = strings.Replace(enqVal, "_", "\\_", -1)
 	return sql.Eq(
-		sql.NewRawObject(fmt.Sprintf("%s(string, '%%%s%%')", likeOp, enqVal)), sql.NewIntVal(1),
+		sql.NewRawObject(fmt.Sprintf("%s(string, %s)", likeOp, enqVal)), sql.NewIntVal(1),
 	), nil
 }
 
